@@ -1,12 +1,12 @@
 SPECIFICATION Spec
 CONSTANTS Callers = {c1, c2}
- MaxTick = 3
- MaxRot = 2
- MaxAtt = 3
- FreshKey = TRUE
+ MaxTick = 2
+ MaxRot = 1
+ MaxAtt = 2
+ FreshKey = FALSE
  MaxJunk = 0
- Kinds = {"obj"}
- Dev = {}
+ Kinds = {"obj", "vec"}
+ Dev = {"HintKeyedByServerId"}
 INVARIANTS WireIdsIncrease SeqNoRules OwnResult TypedVector LoopAlive AcceptedNeverResent SaltPersisted NoStallNotify NoStallDeliver AckedAll
-PROPERTIES AllDone LoopKeepsReading
+
 VIEW view
